@@ -446,7 +446,7 @@ def _r19_1_get_imports_map(ctx, m):
   r_def = _one(list(rdefs), "result binding of get_imports_map")
   fresh = r_def.kind == "assign" and not r_def.path and _empty_dict(r_def.value)
   # parameters are only read
-  for p, allowed in ((p_out, {"read"}), (p_map, {"read", "contains", "method:get"}),
+  for p, allowed in ((p_out, {"read", "contains"}), (p_map, {"read", "contains", "method:get"}),
                      (p_deps, {"iterate", "arg"})):
     for use in _uses_of(rd, fn, p):
       kind, node = _classify(mod, use)
@@ -577,7 +577,11 @@ def r19_2(ctx):
   comp = strip_iter_wrappers(o.expr) if o.kind == "expr" else None
   if not isinstance(comp, (ast.GeneratorExp, ast.ListComp, ast.SetComp)) \
       or len(comp.generators) != 1:
-    # understood-and-wrong: the ninja deps are the module list itself etc.
+    if not (o.d is not None and _is_loop_binding(m, {o.d})):
+      raise AnalysisError(
+          "setup_build: the deps given to write_build_statement are built by "
+          f"an idiom the rule does not understand ({o.describe()})")
+    # understood-and-wrong: the module list itself is passed as ninja deps
     ctx.bad("setup_build:ninja-deps-same-binding", RUN, d_arg.lineno,
             f"the deps given to write_build_statement come from {o.describe()}, "
             "not from a comprehension over the deps given to get_imports_map",
@@ -719,6 +723,14 @@ def _deps_field(ctx, m, want):
     n_join += 1
     sep = try_fold(join.func.value, mod=mod)
     comp = join.args[0]
+    if isinstance(comp, ast.Name) and rdw.defs_of(comp) == {p_deps}:
+      # the parameter joined as it is: all deps, none escaped
+      facts.append({"prefix": prefix, "separator": sep, "iter": src(comp),
+                    "filters": [], "element": "<unescaped>"})
+      pipe_ok = pipe_ok and isinstance(prefix, str) and prefix.strip() == "|" \
+          and prefix.startswith(" ") and prefix.endswith(" ") and sep == " "
+      esc_ok = False
+      continue
     if not isinstance(comp, (ast.GeneratorExp, ast.ListComp)) or len(comp.generators) != 1:
       raise AnalysisError("write_build_statement: deps are not joined from a comprehension")
     g = comp.generators[0]
@@ -1234,6 +1246,8 @@ def _writer_format(ctx, m):
   if len(w.args) != 1:
     raise AnalysisError("write_imports: write() with unexpected arguments")
   toks = template_tokens(w.args[0], mod)
+  if [t[0] for t in toks] in (["field", "lit", "field"], ["item", "lit", "item"]):
+    toks = toks + [("lit", "")]
   if [t[0] for t in toks] not in (["field", "lit", "field", "lit"],
                                   ["item", "lit", "item", "lit"]):
     raise AnalysisError(
@@ -1263,7 +1277,7 @@ def _writer_format(ctx, m):
           "guards": [src(t) for t, _ in g], "line": w.lineno, "rd": rd}
 
 
-@rule("R19.5", "C19", floor=5)
+@rule("R19.5", "C19", floor=6)
 def r19_5(ctx):
   """The imports-file writer and imports_map_loader._read_from_file agree."""
   m = _model(ctx)
@@ -1342,7 +1356,7 @@ def r19_5(ctx):
 
 # -- R19.6 ---------------------------------------------------------------------------
 
-@rule("R19.6", "C19", floor=5)
+@rule("R19.6", "C19", floor=8)
 def r19_6(ctx):
   """`$` variables of the pytype-single command are those the build line sets."""
   m = _model(ctx)
@@ -1479,3 +1493,288 @@ def r19_7(ctx):
             "run:setup_build-before-build", RUN, b.lineno,
             "ninja (self.build()) is started on a path that has not written "
             "the plan and the default stub (self.setup_build())")
+
+
+# -- sensitivity suite ---------------------------------------------------------------
+
+_GIM_OLD = """  imports_map = {}
+  for m in deps:
+    if m in module_to_imports_map:
+      imports_map.update(module_to_imports_map[m])
+    imports_map[_module_to_output_path(m)] = module_to_output[m]
+  return imports_map
+"""
+_GIM_RENAMED = """  result = {}
+  for dep in sorted(deps):
+    out = module_to_output[dep]
+    if dep in module_to_imports_map:
+      result.update(module_to_imports_map[dep])
+    result[_module_to_output_path(dep)] = out
+  return result
+"""
+_WRITE_OLD = """      f.write('build {output}: {action} {input}{deps}\\n'
+              '  imports = {imports}\\n'
+              '  module = {module}\\n'.format(
+                  output=escape_ninja_path(output),
+                  action=action,
+                  input=escape_ninja_path(module.full_path),
+                  deps=deps,
+                  imports=escape_ninja_path(imports),
+                  module=module.name))
+"""
+_WRITE_FSTRING = """      out = escape_ninja_path(output)
+      f.write(f'build {out}: {action} {escape_ninja_path(module.full_path)}{deps}\\n'
+              f'  imports = {escape_ninja_path(imports)}\\n'
+              f'  module = {module.name}\\n')
+"""
+_SUFFIX_OLD = """      if stage == Stage.SINGLE_PASS:
+        files.add(module.full_path)
+        suffix = ''
+      elif stage == Stage.FIRST_PASS:
+        suffix = FIRST_PASS_SUFFIX
+      else:
+        assert stage == Stage.SECOND_PASS
+        files.add(module.full_path)
+        suffix = ''
+"""
+_SUFFIX_IFEXP = """      if stage != Stage.FIRST_PASS:
+        files.add(module.full_path)
+      suffix = FIRST_PASS_SUFFIX if stage == Stage.FIRST_PASS else ''
+"""
+_PLAN_OLD = """      imports_map = module_to_imports_map[module] = get_imports_map(
+          deps, module_to_imports_map, module_to_output)
+      imports = self.write_imports(module.name, imports_map, suffix)
+      # Don't depend on default.pyi, since it's regenerated every time.
+      deps = tuple(module_to_output[m] for m in deps
+                   if module_to_output[m] != default_output)
+"""
+_PLAN_REORDERED = """      deps = tuple(module_to_output[m] for m in deps
+                   if module_to_output[m] != default_output)
+      imports_map = module_to_imports_map[module] = get_imports_map(
+          deps, module_to_imports_map, module_to_output)
+      imports = self.write_imports(module.name, imports_map, suffix)
+"""
+_PLAN_RENAMED = """      step_map = get_imports_map(deps, module_to_imports_map, module_to_output)
+      module_to_imports_map[module] = step_map
+      imports = self.write_imports(module.name, step_map, suffix)
+      ninja_deps = tuple(module_to_output[m] for m in deps
+                         if default_output != module_to_output[m])
+"""
+
+
+def _v(name, rid, old, new, expect="fire", file=RUN):
+  return {"name": name, "rule": rid, "file": file, "old": old, "new": new,
+          "expect": expect}
+
+
+VARIANTS = [
+    # R19.1
+    _v("imports-file-stored-as-output", "R19.1",
+       "      module_to_output[module] = self.write_build_statement(\n"
+       "          module, action, deps, imports, suffix)",
+       "      self.write_build_statement(module, action, deps, imports, suffix)\n"
+       "      module_to_output[module] = imports"),
+    _v("output-path-computed-not-declared", "R19.1",
+       "      module_to_output[module] = self.write_build_statement(\n"
+       "          module, action, deps, imports, suffix)",
+       "      self.write_build_statement(module, action, deps, imports, suffix)\n"
+       "      module_to_output[module] = path_utils.join(\n"
+       "          self.pyi_dir, _module_to_output_path(module) + '.pyi')"),
+    _v("imports-map-get-with-default", "R19.1",
+       "    imports_map[_module_to_output_path(m)] = module_to_output[m]",
+       "    imports_map[_module_to_output_path(m)] = module_to_output.get(\n"
+       "        m, 'default.pyi')"),
+    _v("imports-map-skips-unbuilt-dependency", "R19.1",
+       "    imports_map[_module_to_output_path(m)] = module_to_output[m]",
+       "    if m in module_to_output:\n"
+       "      imports_map[_module_to_output_path(m)] = module_to_output[m]"),
+    _v("build-statement-returns-escaped-output", "R19.1",
+       "                  module=module.name))\n    return output",
+       "                  module=module.name))\n    return escape_ninja_path(output)"),
+    _v("build-statement-returns-imports", "R19.1",
+       "                  module=module.name))\n    return output",
+       "                  module=module.name))\n    return imports"),
+    _v("default-pyi-returns-directory", "R19.1",
+       "      f.write(DEFAULT_PYI)\n    return output",
+       "      f.write(DEFAULT_PYI)\n    return self.imports_dir"),
+    _v("twin-inherited-map-via-get-empty", "R19.1",
+       "    if m in module_to_imports_map:\n"
+       "      imports_map.update(module_to_imports_map[m])",
+       "    imports_map.update(module_to_imports_map.get(m, {}))", "silent"),
+    _v("twin-get_imports_map-renamed-locals", "R19.1", _GIM_OLD, _GIM_RENAMED,
+       "silent"),
+    # R19.2
+    _v("ninja-deps-extra-filter", "R19.2",
+       "                   if module_to_output[m] != default_output)",
+       "                   if module_to_output[m] != default_output\n"
+       "                   and m.full_path in files)"),
+    _v("ninja-deps-from-sliced-list", "R19.2",
+       "      deps = tuple(module_to_output[m] for m in deps\n",
+       "      deps = tuple(module_to_output[m] for m in deps[1:]\n"),
+    _v("ninja-deps-only-checked-files", "R19.2",
+       "      deps = tuple(module_to_output[m] for m in deps\n",
+       "      direct = [m for m in deps if m.full_path in self.filenames]\n"
+       "      deps = tuple(module_to_output[m] for m in direct\n"),
+    _v("imports-map-from-already-filtered-deps", "R19.2", _PLAN_OLD,
+       _PLAN_REORDERED),
+    _v("ninja-deps-with-get", "R19.2",
+       "      deps = tuple(module_to_output[m] for m in deps\n",
+       "      deps = tuple(module_to_output.get(m) for m in deps\n"),
+    _v("implicit-deps-become-order-only", "R19.2",
+       "      deps = ' | ' + ' '.join(", "      deps = ' || ' + ' '.join("),
+    _v("deps-missing-from-build-line", "R19.2",
+       "'build {output}: {action} {input}{deps}\\n'",
+       "'build {output}: {action} {input}\\n'"),
+    _v("only-first-dep-declared", "R19.2",
+       "' '.join(escape_ninja_path(dep) for dep in deps)",
+       "' '.join(escape_ninja_path(dep) for dep in deps[:1])"),
+    _v("map-recorded-after-output-for-next-module", "R19.2",
+       "      imports_map = module_to_imports_map[module] = get_imports_map(",
+       "      imports_map = module_to_imports_map[deps] = get_imports_map("),
+    _v("imports-file-of-other-map", "R19.2",
+       "      imports = self.write_imports(module.name, imports_map, suffix)",
+       "      imports = self.write_imports(module.name, module_to_output, suffix)"),
+    {"name": "twin-renamed-locals-in-plan-loop", "rule": "R19.2", "expect": "silent",
+     "edits": [(RUN, _PLAN_OLD, _PLAN_RENAMED),
+               (RUN, "self.write_build_statement(\n          module, action, deps, imports, suffix)",
+                "self.write_build_statement(\n          module, action, ninja_deps, imports, suffix)")]},
+    _v("twin-build-line-as-fstring", "R19.2", _WRITE_OLD, _WRITE_FSTRING, "silent"),
+    # R19.3
+    _v("empty-first-pass-suffix", "R19.3", "FIRST_PASS_SUFFIX = '-1'",
+       "FIRST_PASS_SUFFIX = ''"),
+    _v("first-pass-gets-final-name", "R19.3",
+       "        suffix = FIRST_PASS_SUFFIX", "        suffix = ''"),
+    _v("single-pass-gets-first-pass-name", "R19.3",
+       "      if stage == Stage.SINGLE_PASS:\n        files.add(module.full_path)\n        suffix = ''",
+       "      if stage == Stage.SINGLE_PASS:\n        files.add(module.full_path)\n        suffix = FIRST_PASS_SUFFIX"),
+    _v("second-pass-keeps-previous-suffix", "R19.3",
+       "        files.add(module.full_path)\n        suffix = ''\n      imports_map",
+       "        files.add(module.full_path)\n      imports_map"),
+    _v("first-pass-still-checks", "R19.3",
+       "          if action == Action.CHECK:\n            action = Action.INFER\n", ""),
+    _v("first-pass-rewrite-after-yield", "R19.3",
+       "          if action == Action.CHECK:\n            action = Action.INFER\n"
+       "          yield module, action, deps, Stage.FIRST_PASS\n",
+       "          yield module, action, deps, Stage.FIRST_PASS\n"
+       "          if action == Action.CHECK:\n            action = Action.INFER\n"),
+    _v("second-pass-deps-not-extended", "R19.3",
+       "        deps += tuple(second_pass_deps)\n", ""),
+    _v("second-pass-deps-only-checked-modules", "R19.3",
+       "          second_pass_deps.append(module)\n          if action == Action.CHECK:\n",
+       "          if action == Action.CHECK:\n            second_pass_deps.append(module)\n"),
+    _v("imports-file-ignores-suffix", "R19.3",
+       "module_name + '.imports' + suffix)", "module_name + '.imports')"),
+    _v("output-ignores-suffix", "R19.3",
+       "_module_to_output_path(module) + '.pyi' + suffix)",
+       "_module_to_output_path(module) + '.pyi')"),
+    _v("imports-file-always-final-suffix", "R19.3",
+       "      imports = self.write_imports(module.name, imports_map, suffix)",
+       "      imports_suffix = ''\n"
+       "      imports = self.write_imports(module.name, imports_map, imports_suffix)"),
+    _v("yield-stage-and-deps-swapped", "R19.3",
+       "            yield module, action, deps, Stage.SECOND_PASS",
+       "            yield module, action, Stage.SECOND_PASS, deps"),
+    _v("twin-suffix-as-conditional-expression", "R19.3", _SUFFIX_OLD,
+       _SUFFIX_IFEXP, "silent"),
+    _v("twin-append-after-rewrite", "R19.3",
+       "          second_pass_deps.append(module)\n"
+       "          if action == Action.CHECK:\n            action = Action.INFER\n",
+       "          if action == Action.CHECK:\n            action = Action.INFER\n"
+       "          second_pass_deps.append(module)\n", "silent"),
+    # R19.4
+    _v("output-not-escaped", "R19.4",
+       "output=escape_ninja_path(output),", "output=output,"),
+    _v("input-not-escaped", "R19.4",
+       "input=escape_ninja_path(module.full_path),", "input=module.full_path,"),
+    _v("imports-not-escaped", "R19.4",
+       "imports=escape_ninja_path(imports),", "imports=imports,"),
+    _v("deps-not-escaped", "R19.4",
+       "' '.join(escape_ninja_path(dep) for dep in deps)", "' '.join(deps)"),
+    _v("output-escaped-twice", "R19.4",
+       "output=escape_ninja_path(output),",
+       "output=escape_ninja_path(escape_ninja_path(output)),"),
+    _v("colon-missing-from-class", "R19.4", "(?P<char>[\\n :$])", "(?P<char>[\\n $])"),
+    _v("space-missing-from-class", "R19.4", "(?P<char>[\\n :$])", "(?P<char>[\\n:$])"),
+    _v("class-also-escapes-dot", "R19.4", "(?P<char>[\\n :$])", "(?P<char>[\\n :$.])"),
+    _v("class-negated", "R19.4", "(?P<char>[\\n :$])", "(?P<char>[^\\n :$])"),
+    _v("replacement-uses-backslash", "R19.4", "r'$\\g<char>'", "r'\\\\\\g<char>'"),
+    _v("only-first-occurrence-escaped", "R19.4",
+       "r'$\\g<char>', path)", "r'$\\g<char>', path, count=1)"),
+    _v("twin-unnamed-group", "R19.4",
+       "r'(?P<char>[\\n :$])', r'$\\g<char>', path)",
+       "r'([:$ \\n])', r'$\\1', path)", "silent"),
+    _v("twin-escaped-output-in-local", "R19.4",
+       "    with open(self.ninja_file, 'a') as f:\n"
+       "      f.write('build {output}: {action} {input}{deps}\\n'\n"
+       "              '  imports = {imports}\\n'\n"
+       "              '  module = {module}\\n'.format(\n"
+       "                  output=escape_ninja_path(output),",
+       "    escaped = escape_ninja_path(output)\n"
+       "    with open(self.ninja_file, 'a') as f:\n"
+       "      f.write('build {output}: {action} {input}{deps}\\n'\n"
+       "              '  imports = {imports}\\n'\n"
+       "              '  module = {module}\\n'.format(\n"
+       "                  output=escaped,", "silent"),
+    # R19.5
+    _v("imports-file-value-first", "R19.5",
+       "      for item in imports_map.items():\n        f.write('%s %s\\n' % item)",
+       "      for k, v in imports_map.items():\n        f.write('%s %s\\n' % (v, k))"),
+    _v("imports-file-tab-separated", "R19.5", "f.write('%s %s\\n' % item)",
+       "f.write('%s\\t%s\\n' % item)"),
+    _v("imports-file-no-newline", "R19.5", "f.write('%s %s\\n' % item)",
+       "f.write('%s %s' % item)"),
+    _v("imports-file-skips-default-entries", "R19.5",
+       "      for item in imports_map.items():\n        f.write('%s %s\\n' % item)",
+       "      for item in imports_map.items():\n        if item[1]:\n"
+       "          f.write('%s %s\\n' % item)"),
+    _v("reader-splits-every-space", "R19.5", 'line.split(" ", 1)', 'line.split(" ")',
+       file=LOADER),
+    _v("reader-splits-from-the-right", "R19.5", 'line.split(" ", 1)',
+       'line.rsplit(" ", 1)', file=LOADER),
+    _v("reader-splits-on-colon", "R19.5", 'line.split(" ", 1)', 'line.split(":", 1)',
+       file=LOADER),
+    _v("reader-swaps-key-and-value", "R19.5", "items.append((short_path, path))",
+       "items.append((path, short_path))", file=LOADER),
+    _v("imports-file-returns-other-path", "R19.5",
+       "        f.write('%s %s\\n' % item)\n    return output",
+       "        f.write('%s %s\\n' % item)\n    return self.imports_dir"),
+    _v("twin-writer-fstring", "R19.5",
+       "      for item in imports_map.items():\n        f.write('%s %s\\n' % item)",
+       "      for short, full in imports_map.items():\n        f.write(f'{short} {full}\\n')",
+       "silent"),
+    _v("twin-writer-sorted-items", "R19.5",
+       "      for item in imports_map.items():",
+       "      for item in sorted(imports_map.items()):", "silent"),
+    _v("twin-reader-keyword-maxsplit", "R19.5", 'line.split(" ", 1)',
+       'line.split(" ", maxsplit=1)', "silent", file=LOADER),
+    # R19.6
+    _v("imports-variable-renamed-in-build-line-only", "R19.6",
+       "'  imports = {imports}\\n'", "'  imports_info = {imports}\\n'"),
+    _v("output-flag-uses-undefined-variable", "R19.6", "'-o': '$out',",
+       "'-o': '$output',"),
+    _v("imports-flag-given-module", "R19.6", "'--imports_info': '$imports',",
+       "'--imports_info': '$module',"),
+    _v("source-not-passed", "R19.6", "        ['$in']\n", "        []\n"),
+    {"name": "twin-imports-variable-renamed-consistently", "rule": "R19.6",
+     "expect": "silent",
+     "edits": [(RUN, "'  imports = {imports}\\n'", "'  imports_map = {imports}\\n'"),
+               (RUN, "'--imports_info': '$imports',", "'--imports_info': '$imports_map',")]},
+    # R19.7
+    _v("build-statement-truncates-file", "R19.7",
+       "    with open(self.ninja_file, 'a') as f:", "    with open(self.ninja_file, 'w') as f:"),
+    _v("preamble-appends", "R19.7",
+       "    with open(self.ninja_file, 'w') as f:", "    with open(self.ninja_file, 'a') as f:"),
+    _v("preamble-not-written", "R19.7", "    self.write_ninja_preamble()\n", ""),
+    {"name": "preamble-after-statements", "rule": "R19.7", "expect": "fire",
+     "edits": [(RUN, "    self.write_ninja_preamble()\n    files = set()",
+                "    files = set()"),
+               (RUN, "    return files\n\n  def build",
+                "    self.write_ninja_preamble()\n    return files\n\n  def build")]},
+    {"name": "ninja-started-before-plan", "rule": "R19.7", "expect": "fire",
+     "edits": [(RUN, "    files_to_analyze = self.setup_build()\n",
+                "    ret = self.build()\n    files_to_analyze = self.setup_build()\n"),
+               (RUN, "    ret = self.build()\n    if not ret:", "    if not ret:")]},
+    _v("twin-preamble-after-independent-init", "R19.7",
+       "    self.write_ninja_preamble()\n    files = set()",
+       "    files = set()\n    self.write_ninja_preamble()", "silent"),
+]
